@@ -56,6 +56,12 @@ def vc_equality_fields(H):
     imply equal metric and basis.  The fields that determine metric and basis are p, q, r, signature, start_index, basis."""
     import z3
     cls, fields = X.class_fields(ALG, 'Algebra')
+    meths, _bases = X.class_info(ALG, 'Algebra')
+    if '__eq__' in meths:
+        # equality is no longer the dataclass-generated comparison of the compare=True fields: these clauses read the field flags
+        # only -> undecided, the reject stand-in decides
+        H.out_of_subset.append(('Algebra.__eq__', 'Algebra defines __eq__ explicitly: the field-flag clauses do not describe it (undecided here)'))
+        return
     cmp = {name: kw.get('compare', True) is not False for name, kw in fields}
     for f in ('p', 'q', 'r', 'basis'):
         H.add_goal(f'Algebra.__eq__/compares field {f}', [], z3.BoolVal(cmp.get(f, False)))
